@@ -366,12 +366,17 @@ def run(ctx):
                           what="verified Coq checker (valid_grouping / properb / valid_word_grouping) rejects the implementation's output or the recorded colouring")
         if i not in badv and F_WIRELESS in finds:
             ctx.notes.append("python oracle flagged the wire-less corner but the Coq checker accepted case " + key)
+    detail = []
     if bad:
-        detail = ctx.coq_eval_terms("detail", hdr, [f"(let ce := {terms[i]} in corr_vector (fst ce) (snd ce))" for i in bad[:5]])
+        try:
+            detail = ctx.coq_eval_terms("detail", hdr + "\nRequire Import List ZArith. Import ListNotations.",
+                                        [f"(let ce := {terms[i]} in corr_vector (fst ce) (snd ce))" for i in bad[:5]])
+        except CoqError as ex:       # locating the differing component is a convenience only
+            ctx.notes.append("detail evaluation failed: " + str(ex)[-300:])
     for k, i in enumerate(bad):
         ctx.violation("corr:" + json.dumps(cases[i], sort_keys=True),
                       {"case": cases[i], "implementation": obs[i],
-                       "model_vs_impl [bin, adj, adj_all, groups, coeffs, partition_indices, strategy_idx, diag]": detail[k] if k < 5 else "n/a"},
+                       "model_vs_impl [bin, adj, adj_all, groups, coeffs, partition_indices, strategy_idx, diag]": detail[k] if k < len(detail) else "n/a"},
                       what="implementation differs from the proved model of the grouping code")
     ctx.coverage.update({
         "evaluations": len(cases), "distinct_nontrivial": len(distinct),
